@@ -35,6 +35,10 @@ def plan(tier, seed):
             specs.append({"stratum": f"family-{fam}", "family": fam, "n": per_f, "k": k, "clean": True})
     specs.append({"stratum": "family-mset-nodup", "family": "mset", "n": per_f, "k": 0, "clean": True, "nodup": True})
     specs.append({"stratum": "family-mset-dup", "family": "mset", "n": per_f, "k": 0, "case_timeout": 10})
+    if not q:
+        for k in range(8):
+            specs.append({"stratum": "json-large-documents", "family": "json", "n": 250, "k": k, "clean": True, "profile": "large",
+                          "case_timeout": 120})
     nsh = 4 if q else 12
     for k in range(nsh):
         specs.append({"stratum": "exhaustive-tiny", "exhaustive": True, "k": k, "of": nsh, "clean": True,
@@ -68,8 +72,9 @@ def gen_cases(spec, ctx):
                     idx += 1
         return
     fam = spec["family"]
+    prof = gen.LARGE if spec.get("profile") == "large" else None
     for _ in range(spec["n"]):
-        case = families.gen_case(r, fam)
+        case = families.gen_case(r, fam, prof=prof)
         if fam == "mset":
             has_dup = any(len(x) != len({core.jdump(v) for v in x}) for x in (case["a"], case["b"]))
             if spec.get("nodup") and has_dup:
